@@ -136,7 +136,8 @@ func fxExpLit(r *hx.Rng) string {
 		return hx.Pick(r, []string{"1e2", "1e-2", "2.5E1", "1e+2", "2.5E-1", "2.5E+1", "1e0", "0e0", "-0e0", "1E0", "1.5e3", "1,5e3", "1,000e-3", "0.29e2", "1.15e2",
 			"2.675e0", "1.005e0", "4.35e2", "1.1e0", "1.15e0", "2.9e-1", "4.35e0", "5.7e-1", "1.15", "0.29", "0.1e1", "0.7e1", "5e-5", "4.9e-5", "1e-16", "1e-17", "9e-17", "123456789e-9", "1e14", "9e14", "1e15", "9.2e18", "9.3e18",
 			"1e19", "1e400", "1e-400", "9.223372036854775e14", "9.223372036854776e14", "9.2233720368547758e2", "9.223372036854775807e0", "1e", "1e+", "1e-", "e1", "1ee1",
-			"1e1e1", ".e1", "1.e1", ".5e1", "1e2.5", "0x1e", "0x1p-2e", "1_0e1", "nane", "Infe", "e", "E"})
+			"1e1e1", ".e1", "1.e1", ".5e1", "1e2.5", "0x1e", "0x1p-2e", "1_0e1", "nane", "Infe", "e", "E",
+			"0x1ep0", "0x1.8p1e", "0x.ep1", "-0x1Ep-1", "0x1e.8p0", "0xep", "0x1_ep0", "0x_1ep0", "1_000e0", "1__0e1", "_1e1", "1_e1", "1e1_0", "1e_1", "1_0.5e1", "1_0._5e1", "0_1e1", "0x1ep1_0"})
 	case 1, 2, 3:
 		s := strconv.Itoa(r.Intn(100000))
 		if r.Chance(3, 4) {
